@@ -32,6 +32,10 @@ pub enum Action {
     /// Only meaningful when the server runs its own accept loop; hyper's own
     /// listener handles these inside the part that is stubbed.
     AcceptError(i32),
+    /// descriptor exhaustion: for this many simulated milliseconds every
+    /// accept() fails with EMFILE (again only for a server with its own accept
+    /// loop); time is advanced through the outage, then it ends
+    AcceptOutage(u64),
 }
 
 #[derive(Clone, Debug, PartialEq)]
@@ -57,6 +61,7 @@ impl Action {
             Action::Release => json!(["release"]),
             Action::Tick(ms) => json!(["tick", ms]),
             Action::AcceptError(e) => json!(["accept-error", e]),
+            Action::AcceptOutage(ms) => json!(["accept-outage", ms]),
         }
     }
     pub fn from_json(v: &Value) -> Option<Action> {
@@ -76,13 +81,14 @@ impl Action {
             "release" => Action::Release,
             "tick" => Action::Tick(c as u64),
             "accept-error" => Action::AcceptError(c as i32),
+            "accept-outage" => Action::AcceptOutage(c as u64),
             _ => return None,
         })
     }
     pub fn conn(&self) -> Option<usize> {
         match self {
             Action::Open(c) | Action::Deliver(c, _) | Action::Drain(c, _) | Action::DrainAll(c) | Action::HalfClose(c) | Action::Close(c) | Action::Reset(c) => Some(*c),
-            Action::Probe | Action::Hold | Action::Release | Action::Tick(_) | Action::AcceptError(_) => None,
+            Action::Probe | Action::Hold | Action::Release | Action::Tick(_) | Action::AcceptError(_) | Action::AcceptOutage(_) => None,
         }
     }
     pub fn is_fault(&self) -> bool {
@@ -640,6 +646,11 @@ impl<'a> RunGen<'a> {
                 actions.insert(at, Action::AcceptError(*rng.pick(&[24, 23, 103])));
             }
         }
+        if rng.chance(1, 10) {
+            let at = rng.usize_below(actions.len() + 1);
+            actions.insert(at, Action::Probe);
+            actions.insert(at, Action::AcceptOutage(*rng.pick(&[2_000u64, 20_000, 45_000, 90_000])));
+        }
         // slow clients: in some runs time passes between deliveries (at most a few
         // seconds in total, far below any sane server-side timeout)
         if rng.chance(1, 5) {
@@ -661,9 +672,9 @@ impl<'a> RunGen<'a> {
             let mut out = vec![];
             let mut i = 0;
             while i < actions.len() {
-                if rng.chance(1, 6) && !matches!(actions[i], Action::Probe | Action::Tick(_) | Action::AcceptError(_)) {
+                if rng.chance(1, 6) && !matches!(actions[i], Action::Probe | Action::Tick(_) | Action::AcceptError(_) | Action::AcceptOutage(_)) {
                     let k = rng.urange(2, 5).min(actions.len() - i);
-                    if actions[i..i + k].iter().all(|a| !matches!(a, Action::Probe | Action::Tick(_) | Action::AcceptError(_))) {
+                    if actions[i..i + k].iter().all(|a| !matches!(a, Action::Probe | Action::Tick(_) | Action::AcceptError(_) | Action::AcceptOutage(_))) {
                         out.push(Action::Hold);
                         out.extend(actions[i..i + k].iter().cloned());
                         out.push(Action::Release);
